@@ -26,7 +26,14 @@ import (
 	"github.com/itchyny/gojq"
 )
 
-func main() { Register("fp", runFp); Register("stk", runStk); Register("vmf", runVmf); Register("evmgen", runEvmGen); Register("evmtrace", runEvmTrace); Main() }
+func main() {
+	Register("fp", runFp)
+	Register("stk", runStk)
+	Register("vmf", runVmf)
+	Register("evmgen", runEvmGen)
+	Register("evmtrace", runEvmTrace)
+	Main()
+}
 
 // ---- probing context --------------------------------------------------------------------------
 
